@@ -56,6 +56,7 @@ type RunResult struct {
 	ScriptPath string           `json:"script_path,omitempty"`
 	Sample     json.RawMessage  `json:"sample,omitempty"`
 	Err        string           `json:"err,omitempty"`
+	FinalState string           `json:"final_state,omitempty"` // hash of the custom-module state after the last block
 	Earlier    []uint64         `json:"earlier_seeds,omitempty"` // seeds this worker process ran before (set on violation)
 }
 
@@ -171,6 +172,9 @@ func oneRun(seed uint64, prop, tier string, env *Env, known *KnownFindings, scra
 	e := runScript(s, env, known, scratch, "")
 	rr.Trace = e.Trace.Sum()
 	rr.Blocks = len(e.Blocks)
+	if n := len(e.Blocks); n > 0 {
+		rr.FinalState = e.Blocks[n-1].FlatHash
+	}
 	rr.Steps = len(s.Steps)
 	rr.SimTimeS = e.simTime.Seconds()
 	rr.WallMs = time.Since(t0).Milliseconds()
